@@ -858,6 +858,13 @@ static ares_bool_t ares_buf_split_isduplicate(ares_array_t        *arr,
       continue;
     }
 
+    /* Two blank sections (ARES_BUF_SPLIT_ALLOW_BLANK) are duplicates of each
+     * other.  A blank section is stored as an empty buffer without any data
+     * pointer, so ptr is NULL here and must not be passed on to memcmp() */
+    if (len == 0) {
+      return ARES_TRUE;
+    }
+
     if (flags & ARES_BUF_SPLIT_CASE_INSENSITIVE) {
       if (ares_memeq_ci(ptr, val, len)) {
         return ARES_TRUE;
